@@ -15,7 +15,7 @@ def emit(ctx, types, tier=None):
     tier = tier or ctx.tier
     et = ("EmitTypes <- " + types) if isinstance(types, str) else ("EmitTypes = " + verif.tla_value(set(types)))
     cfg = 'CONSTANTS\n  Tier = "%s"\n  Dev = {}\n  %s\nINIT Init\nNEXT Next\n' % (tier, et)
-    r = ctx.tlc("EmitCodec", cfg, workers=1, timeout=600, name="EmitCodec")
+    r = ctx.tlc("EmitCodec", cfg, workers=1, timeout=600, name="EmitCodec", heap="3g")
     if not r.ok:
         raise verif.Undecided("EmitCodec failed:\n" + r.out[-3000:])
     counts = {}
@@ -47,13 +47,13 @@ def drive(ctx, sym, vec, name="obs", raw=False, timeout=1200):
     return obs, tls, summ
 
 
-def validate(ctx, obs, tls, tier=None, timeout=1500, name="TrCodec", dev=()):
+def validate(ctx, obs, tls, tier=None, timeout=1500, name="TrCodec", dev=(), heap="6g"):
     """-> (rejected: {observation number (1-based line of obs): [law names]}, rejected token list ids, TLCResult)"""
     tier = tier or ctx.tier
     cfg = 'CONSTANTS\n  Tier = "%s"\n  Dev = %s\nSPECIFICATION TSpec\nCONSTRAINT HW\nPOSTCONDITION Accepted\nCHECK_DEADLOCK FALSE\n' % (
         tier, verif.tla_value(set(dev)))
     r = ctx.tlc("TrCodec", cfg, files={"obs.ndjson": obs, "tls.ndjson": tls}, workers=1, timeout=timeout, xss=True,
-                name=name, heap="6g")
+                name=name, heap=heap)
     checked = r.printed("CHECKED")
     if not checked:
         raise verif.Undecided("trace validation did not reach its postcondition:\n" + r.out[-3000:])
@@ -87,7 +87,8 @@ def signature(o, laws):
     """grouping key of a rejected observation: type, laws, failing paths (not part of the verdict)"""
     bad = sorted({e["p"] + ":" + e["err"][:40] for e in o["enc"] if e["err"] or not e["strict"]} |
                  {d["p"] + ":" + d["err"][:40] for d in o["dec"] if d["err"]})
-    return (o["ty"], tuple(laws), tuple(bad[:3]))
+    ty = o["ty"] + (":" + str(o["v"].get("ty")) if o["ty"] in ("reuse", "reuse.core", "shape") and isinstance(o.get("v"), dict) else "")
+    return (ty, tuple(laws), tuple(bad[:3]))
 
 
 def diagnose(o):
@@ -104,6 +105,62 @@ def diagnose(o):
             v, ps = list(vals.items())[0]
             out.append("decoded(%s)=%s" % (exp, v[:200]))
     return "; ".join(out)[:700]
+
+
+def diagnose_kept(o):
+    """human-readable hint for the aliasing law: which leaves of the copy changed"""
+    views = {d["p"]: d for d in o["dec"]}
+    out = []
+    for mode in ("bytes", "tokens"):
+        k, f1 = views.get(mode + "/kept"), views.get(mode + "/fresh1")
+        if not k or not f1 or f1["val"].get("outcome") != "value":
+            continue
+        if k["err"] or k["val"].get("outcome") != "value":
+            out.append("%s: the copy could not be read back (%s)" % (mode, k["err"][:120]))
+            continue
+        for leaf, want in sorted(f1["val"]["leaves"].items()):
+            got = k["val"]["leaves"].get(leaf)
+            if got != want:
+                out.append("%s: a copy (by assignment) of the value decoded from document a held %s=%s; after document b was decoded "
+                           "into the variable it was copied from, the copy holds %s" % (mode, leaf, json.dumps(want)[:160], json.dumps(got)[:160]))
+    return "; ".join(out)[:900]
+
+
+def selftest_kept(ctx, obs, tier=None, rejected=()):
+    """aliasing law: in an accepted used-receiver scenario the copy taken after the first decode is given a leaf of the
+    SECOND document (what a decoder that overwrites shared storage causes): TLC must reject it with the law Kept"""
+    base = None
+    with open(obs) as f:
+        for l in f:
+            if '"ty":"reuse' not in l:
+                continue
+            o = json.loads(l)
+            views = {d["p"]: d for d in o["dec"]}
+            if all(d["err"] == "" and d["val"].get("outcome") == "value" for d in o["dec"]) and "bytes/kept" in views:
+                f1, f2 = views["bytes/fresh1"]["val"]["leaves"], views["bytes/fresh2"]["val"]["leaves"]
+                ks = [k for k in sorted(f1) if f1[k] != f2[k] and views["bytes/kept"]["val"]["leaves"][k] == f1[k]]
+                if ks and not views["bytes/kept"]["val"].get("refs", True):
+                    base, leaf = o, ks[0]
+                    break
+    if base is None:
+        if rejected:
+            return 0        # the code under test breaks every candidate: the run has rejections of its own
+        raise verif.Undecided("aliasing self-test: no clean used-receiver scenario to corrupt")
+    muts = [json.loads(json.dumps(base)), json.loads(json.dumps(base))]
+    v = {d["p"]: d for d in muts[1]["dec"]}
+    v["bytes/kept"]["val"]["leaves"][leaf] = v["bytes/fresh2"]["val"]["leaves"][leaf]
+    po, pt = ctx.path("selfkept.ndjson"), ctx.path("selfkept.tls.ndjson")
+    with open(po, "w") as f:
+        for m in muts:
+            f.write(json.dumps(m) + "\n")
+    with open(pt, "w") as f:
+        f.write(json.dumps({"ev": "tl", "id": 1, "toks": [{"k": "s", "n": "x", "a": []}, {"k": "e", "n": "x", "a": []}]}) + "\n")
+    rej, _, _ = validate(ctx, po, pt, tier=tier, name="TrCodecSelfKept", timeout=300, heap="1g")
+    if 1 in rej:
+        raise verif.Undecided("aliasing self-test: the unchanged scenario was rejected: %s" % rej[1])
+    if "Kept" not in rej.get(2, []):
+        raise verif.Undecided("aliasing self-test: a copy that changed was ACCEPTED (rejections %s)" % rej)
+    return 1
 
 
 def report(ctx, sym, obs, tls, rejected, rtl, prop, limit=12, known=None):
@@ -140,10 +197,12 @@ def report(ctx, sym, obs, tls, rejected, rtl, prop, limit=12, known=None):
                 "rejected_token_lists": {str(e["tl"]): toklists.get(e["tl"]) for e in o["enc"] if e["tl"] in rtl},
                 "encodings": raw}
         what = "%s: %s value %s breaks %s%s (%d values in this class)" % (
-            prop, o["ty"], json.dumps(o["v"], sort_keys=True)[:260], "+".join(sig[1]),
+            prop, sig[0], json.dumps(o["v"], sort_keys=True)[:260], "+".join(sig[1]),
             (" [" + "; ".join(sig[2]) + "]") if sig[2] else "", len(members))
         if "PathsAgree" in sig[1] or "RoundTrip" in sig[1]:
             what += " -- " + diagnose(o)
+        if "Kept" in sig[1]:
+            what += " -- " + diagnose_kept(o)
         ctx.violation(what, case)
         n += 1
     return n
@@ -154,7 +213,9 @@ def rerun_raw(ctx, sym, o):
         vec = ctx.path("one.vec.ndjson")
         open(vec, "w").write(json.dumps({"ty": o["ty"], "v": o["v"]}) + "\n")
         obs, tls, _ = drive(ctx, sym, vec, name="one", raw=True, timeout=120)
-        return read_line(obs, 1).get("raw", {})
+        raw = read_line(obs, 1).get("raw", {})
+        # long texts are named in the value (symbols of Stanza.tla): the replay file keeps both ends of an encoding
+        return {k: (v if len(v) <= 6000 else v[:3000] + " ...[%d bytes]... " % len(v) + v[-3000:]) for k, v in raw.items()}
     except verif.Undecided:
         return {}
 
@@ -209,7 +270,7 @@ def selftest_binding(ctx, obs, tls, tier=None):
     m = clone(); m["enc"][0]["tl"] = len(lists) - 1; muts.append(("end tag removed", m))
     m = clone(); m["enc"][0]["tl"] = len(lists); muts.append(("duplicate attribute", m))
     m = clone(); del m["dec"][0]; muts.append(("required view missing", m))
-    m = clone(); m["enc"][0]["err"] = "panic: injected"; muts.append(("panic recorded", m))
+    m = clone(); m["enc"][0]["err"] = "panic: injected"; m["enc"][0]["f"] = "panic"; muts.append(("panic recorded", m))
     po, pt = ctx.path("selftest.ndjson"), ctx.path("selftest.tls.ndjson")
     with open(po, "w") as f:
         for _, m in muts:
@@ -217,7 +278,7 @@ def selftest_binding(ctx, obs, tls, tier=None):
     with open(pt, "w") as f:
         for k, l in enumerate(lists):
             f.write(json.dumps({"ev": "tl", "id": k + 1, "toks": l}) + "\n")
-    rej, rtl, r = validate(ctx, po, pt, tier=tier, name="TrCodecSelf", timeout=300)
+    rej, rtl, r = validate(ctx, po, pt, tier=tier, name="TrCodecSelf", timeout=300, heap="1g")
     if 1 in rej:
         raise verif.Undecided("binding self-test: the unchanged observation was rejected: %s" % rej[1])
     expect = {2: "PathsAgree", 3: "RoundTrip", 4: "WellFormed", 5: "WellFormed", 6: "Complete", 7: "NoFailure"}
